@@ -26,7 +26,7 @@ theorem C13_visit_preserves_assignment (lv : Level) (m res : Rat) (st st' : LSta
     (hv : visit lv m res st u = .ok st')
     (hcons : ∀ x c, alookup st.node2com x = some c → x ∈ (st.inner[c]?.getD [])) :
     ∀ x c, alookup st'.node2com x = some c → x ∈ (st'.inner[c]?.getD []) := by
-  obtain ⟨cur, w2c, best, hcur, hw, hbest, -, -, -, hcase⟩ := LF.visit_ok hv
+  obtain ⟨cur, w2c, best, hcur, hw, hbest, -, -, -, -, -, -, hcase⟩ := LF.visit_ok hv
   rcases hcase with ⟨hne, hst⟩ | ⟨-, hst⟩
   · have hbk : best ∈ w2c.map (·.1) := by
       rcases hbest with h | h
@@ -200,9 +200,9 @@ theorem C13_model_always_ok (s : Store) (h : s.wf = true) (weighted : Bool) (res
     ∃ r, louvainPartitions s weighted res threshold perms = .ok r :=
   LF.louvainPartitions_exists s h weighted res threshold perms
 
-/-- the slice-index sites of one visit (`partition[com]`, `inner_partition[com]`; the model uses the total `List.set` /
-    `[·]?.getD []` there) are in range on every state satisfying the bookkeeping invariant `LF.SInv` of the visiting loop:
-    both the community left and the community entered are `<` the lengths of `part` and `inner` -/
+/-- the slice-index sites of one visit (`_partition[com]`, `inner_partition[com]`; explicit `idxGuard`s in the model) are in range
+    on every state satisfying the bookkeeping invariant `LF.SInv` of the visiting loop: both the community left and the community
+    entered are `<` the lengths of `part` and `inner` (see `C13_model_index_sites_safe` for the `stot*` vectors) -/
 theorem C13_visit_indices_in_range (lv : Level) (n k : Nat) (m res : Rat) (st st' : LState) (u : Nat)
     (hg : LF.GoodLevel lv n k) (hs : LF.SInv lv k st) (hv : visit lv m res st u = .ok st') :
     ∃ cur best, alookup st.node2com u = some cur ∧ alookup st'.node2com u = some best ∧
@@ -215,5 +215,40 @@ theorem C13_visit_indices_in_range (lv : Level) (n k : Nat) (m res : Rat) (st st
   have h2 := (hs'.n2c_lt u best hbest).2
   exact ⟨cur, best, hcur, hbest, by rw [hs.part_len]; exact h1, by rw [hs.part_len]; exact h2,
     by rw [hs.inner_len]; exact h1, by rw [hs.inner_len]; exact h2, hs'⟩
+
+/-- **no index-site panic.**  Every slice-index expression of the Rust code (`_partition[n2c]`, `inner_partition[n2c]`,
+    `_partition[best_com]`, `inner_partition[best_com]`, `stot*[best_com] -=`, `stot*[nbr_com]`, `stot*[best_com] +=`) is an explicit
+    `idxGuard` in the model: out of range = `.panic site`.  On a well-formed single-edge level graph with nodes `0..k-1`
+    (`LF.GoodLevel`; every level graph built from a wf store is one: `LF.convertGraph_spec`, `LF.generateGraph_spec`) and a state
+    satisfying the invariant of the visiting loop (`LF.SInv`: `part` and `inner` have `k` slots and all community ids are `< k`;
+    `LF.DegOK`: the degree maps are total and the `stot*` vectors have `k` slots):
+    (a) every community id in use is a valid index of all five vectors;
+    (b) `visit` returns `.ok` (so none of its guards, and no `unwrap`, fails) and re-establishes the invariant;
+    (c) `computeOneLevel` returns `.ok` for every shuffle, every fuel and every input partition listing the member blocks. -/
+theorem C13_model_index_sites_safe (lv : Level) (n k : Nat) (hg : LF.GoodLevel lv n k) (hwf : lv.g.wf = true)
+    (hm : lv.g.specs.multi = false) :
+    (∀ (st : LState), LF.SInv lv k st → LF.DegOK lv.g k st.di → ∀ x c, alookup st.node2com x = some c →
+      c < st.part.length ∧ c < st.inner.length ∧
+      (lv.g.specs.directed = true → c < st.di.stotIn.length ∧ c < st.di.stotOut.length) ∧
+      (lv.g.specs.directed = false → c < st.di.stot.length)) ∧
+    (∀ (st : LState) (m res : Rat) (u : Nat), LF.SInv lv k st → LF.DegOK lv.g k st.di → u ∈ lv.g.getAllNodeNames →
+      ∃ st', visit lv m res st u = .ok st' ∧ LF.SInv lv k st' ∧ LF.DegOK lv.g k st'.di) ∧
+    (∀ (partition : List (List Nat)) (m res : Rat) (perm : List Nat) (fuel : Nat), LF.InputOK lv k partition →
+      ∃ r, computeOneLevel lv m res partition perm fuel = .ok r) := by
+  refine ⟨?_, ?_, ?_⟩
+  · intro st hs hd x c hx
+    have hc := (hs.n2c_lt x c hx).2
+    refine ⟨by rw [hs.part_len]; exact hc, by rw [hs.inner_len]; exact hc, ?_, ?_⟩
+    · intro hdir
+      obtain ⟨_, _, h1, h2⟩ := hd.dir hdir
+      exact ⟨by rw [h1]; exact hc, by rw [h2]; exact hc⟩
+    · intro hdir
+      obtain ⟨_, h1⟩ := hd.undir hdir
+      rw [h1]; exact hc
+  · intro st m res u hs hd hu
+    obtain ⟨st', hv⟩ := LF.visit_exists hg hwf hm hs hd m res u hu
+    exact ⟨st', hv, hs.visit hg hv, LF.visit_degOK hv hd⟩
+  · intro partition m res perm fuel hin
+    exact LF.computeOneLevel_exists hg hwf hm hin m res perm fuel
 
 end Graphrs
